@@ -19,8 +19,8 @@
     src/transport/local.rs:878-959 `remove`, `create_symlink`
     src/temp_file.rs               RAII guard (runs on error/unwind only — never on SIGKILL)
 
-  Hard-link tasks (`create` with -H and nlink > 1) are ordered by the C13 protocol and are not part
-  of the free interleaving (`isLinkTask`).
+  Hard-link tasks (`create` or `update` of a regular file with -H and nlink > 1) are ordered by the
+  C13 protocol and are not part of the free interleaving (`isLinkTask`).
 -/
 import SyModel.Engine.Model
 set_option linter.unusedVariables false
@@ -269,10 +269,15 @@ def symlinkSteps (old : Option DNode) (p : Path) (text : String) : List Step :=
     | some .dir => []
     | some _ => [Step.unlink p]) ++ [Step.symlink p text]
 
-/-- a `create` that goes through the hard-link protocol (C13) -/
+/-- a `create` or an `update` that goes through the hard-link protocol (C13): with `-H`, a regular
+    file with more than one name is handed to `transfer_link_member` by `Transferrer::create` AND by
+    `Transferrer::update` (src/sync/transfer.rs `update`: "Members of a source hard-link group are
+    coordinated exactly as on creation", fix a68466f) — one member rewrites the file, the others end
+    up as links to it; neither runs the step list `stepsOfH` gives for an ordinary file task -/
 def isLinkTask (cfg : Cfg) (t : Task) : Bool :=
   match t.act, t.payload with
   | .create, .file _ nlink => cfg.hardlinks && decide (1 < nlink)
+  | .update, .file _ nlink => cfg.hardlinks && decide (1 < nlink)
   | _, _ => false
 
 /-- the step list of one task; `old` is the destination node the executor finds at `t.rel` -/
